@@ -205,6 +205,8 @@ struct Sim<'a> {
     /// multi-action transactions accepted by some CheckTx and not (yet) executed successfully
     pending_bundles: BTreeSet<[u8; 32]>,
     cur_block_op: u32,
+    /// per node: hashes of the proposals of the current height it accepted in ProcessProposal
+    validated: Vec<BTreeSet<Vec<u8>>>,
     /// full verifiable key space after the previous decided block
     prev_dump: BTreeMap<String, Vec<u8>>,
 }
@@ -323,6 +325,7 @@ impl<'a> Sim<'a> {
             sent_packets: Vec::new(),
             pending_bundles: BTreeSet::new(),
             cur_block_op: 0,
+            validated: Vec::new(),
             prev_dump: dump.clone(),
         };
         super::ibc_stub::enable(true);
@@ -970,6 +973,7 @@ impl<'a> Sim<'a> {
         let h = self.height + 1;
         self.cur_block_op = b.id;
         let n_nodes = self.nodes.len();
+        self.validated = vec![BTreeSet::new(); n_nodes];
         for n in self.nodes.iter_mut() {
             n.path.clear();
         }
@@ -1073,11 +1077,18 @@ impl<'a> Sim<'a> {
                 // the honest base is not a proposal anybody saw
                 continue;
             }
-            // honest proposal: ProcessProposal on the chosen subset
+            // honest proposal: ProcessProposal on the chosen subset. A block is only ever decided
+            // after more than 2/3 of the voting power accepted it in ProcessProposal; the simulated
+            // nodes stand for that majority, so in the deciding round at least one of them must
+            // have validated the block (now, or in an earlier round if it is a re-proposal).
             let mut all_ok = true;
+            let mut process_mask = round.process;
+            if deciding && !live.iter().any(|n| process_mask & (1 << (*n as u8 % 8)) != 0 || self.validated[*n].contains(proposal.hash.as_bytes())) {
+                process_mask |= 1 << (live[round.process as usize % live.len()] as u8 % 8);
+            }
             for n in &live {
-                let reprocess_skipped = !need_prepare && self.nodes[*n].path.contains('p');
-                if round.process & (1 << (*n as u8 % 8)) == 0 && !(deciding && false) {
+                let reprocess_skipped = self.validated[*n].contains(proposal.hash.as_bytes());
+                if process_mask & (1 << (*n as u8 % 8)) == 0 {
                     continue;
                 }
                 if reprocess_skipped && round.process & 0x80 == 0 {
@@ -1090,6 +1101,7 @@ impl<'a> Sim<'a> {
                 let res = guarded(node.app.as_mut().unwrap().process_proposal(req, storage)).await;
                 match res {
                     Ok(()) => {
+                        self.validated[*n].insert(proposal.hash.as_bytes().to_vec());
                         self.nodes[*n].path.push(if deciding { 'p' } else { 'x' });
                         self.trace.ev(&format!("process h={h} r={ri} node={n} accept"));
                     }
